@@ -64,6 +64,15 @@ func (m *Member) scrape() {
 	w.mu.Unlock()
 	m.call("scrape", func() string {
 		defer func() { w.mu.Lock(); m.scraping = false; w.mu.Unlock() }()
+		return m.collect()
+	})
+}
+
+// collect performs one scrape synchronously (also used from inside the lifecycle callbacks: an
+// application that updates its own metrics in a hook scrapes while the stream is between two states).
+func (m *Member) collect() string {
+	w := m.w
+	{
 		col := metric.NewMetricCollector(m.client, dcp.VerifStream(m.d), dcp.VerifVBucketDiscovery(m.d))
 		ch := make(chan prometheus.Metric, 4096)
 		col.Collect(ch)
@@ -98,5 +107,5 @@ func (m *Member) scrape() {
 		}
 		w.jl(&journal.Ev{K: journal.KScrape, M: m.id, Vb: -1, F: f, I: int64(bad), B: true})
 		return "ok"
-	})
+	}
 }
